@@ -6,15 +6,28 @@
 //                EmitLogRecord(record), (c) the severity helpers; bodies/attributes over every value
 //                alternative with short-lived caller storage; nested active spans; explicit
 //                SpanContext / TraceId / SpanId / TraceFlags; simple, batch and 1..3 mixed
-//                processors; enabled and disabled loggers; null records
+//                processors; enabled and disabled loggers; null records.
+//                Argument kinds of the variadic family: body as AttributeValue / string_view / const char* /
+//                string literal / std::string / bare scalar; timestamp as SystemTimestamp / time_point;
+//                attributes as KeyValueIterable / MakeAttributes span / initializer_list / std containers;
+//                EventId with and without a name; partial explicit identity (TraceId / SpanId / TraceFlags
+//                alone); EmitLogRecord(record, args...) after manual setters; the NON-template virtual
+//                Log(...) family and the Trace..Fatal(message | format,attrs | id,format,attrs) overloads.
+//                Active "span" kinds: DefaultSpan (valid / invalid-but-non-zero context), a SpanContext
+//                stored under the span key, a null pointer / non-span value under the span key, an
+//                unrelated key attached on top, real SDK spans (recording, ended, dropped by the sampler).
 //   log_threads  2..3 real threads with their own active spans emit concurrently
+//   f5_witness / eventid_noname_witness   fixed witness cases (replay only, no search budget)
 // Oracle: a reference record model compared INSIDE each exporter's Export with the getters of the
-// SDK's ReadWriteLogRecord.
+// SDK's ReadWriteLogRecord; values are copied out of the record's views by the harness' own visitor.
 #include <atomic>
+#include <chrono>
 #include <mutex>
+#include <set>
 #include <unordered_map>
 #include <thread>
 
+#include "opentelemetry/common/key_value_iterable_view.h"
 #include "opentelemetry/context/runtime_context.h"
 #include "opentelemetry/logs/event_id.h"
 #include "opentelemetry/logs/logger.h"
@@ -28,8 +41,14 @@
 #include "opentelemetry/sdk/logs/read_write_log_record.h"
 #include "opentelemetry/sdk/logs/simple_log_record_processor.h"
 #include "opentelemetry/sdk/resource/resource.h"
+#include "opentelemetry/sdk/trace/id_generator.h"
+#include "opentelemetry/sdk/trace/processor.h"
+#include "opentelemetry/sdk/trace/sampler.h"
+#include "opentelemetry/sdk/trace/span_data.h"
+#include "opentelemetry/sdk/trace/tracer_provider.h"
 #include "opentelemetry/trace/default_span.h"
 #include "opentelemetry/trace/scope.h"
+#include "opentelemetry/trace/span_metadata.h"
 #include "sdkgen.h"
 #include "vh.h"
 
@@ -63,6 +82,40 @@ struct Sink
   std::vector<Captured> records;
 };
 
+// the record's (non-owning) value -> an owned copy, written from the AttributeValue alternatives
+// alone (not the SDK's AttributeConverter): the oracle does not depend on the SDK's conversion code
+struct ToOwned
+{
+  using O = otel::sdk::common::OwnedAttributeValue;
+  O operator()(bool v) const { return O(v); }
+  O operator()(int32_t v) const { return O(v); }
+  O operator()(uint32_t v) const { return O(v); }
+  O operator()(int64_t v) const { return O(v); }
+  O operator()(uint64_t v) const { return O(v); }
+  O operator()(double v) const { return O(v); }
+  O operator()(const char *s) const { return O(std::string(s ? s : "")); }
+  O operator()(otel::nostd::string_view s) const
+  {
+    return O(s.size() ? std::string(s.data(), s.size()) : std::string());
+  }
+  O operator()(otel::nostd::span<const otel::nostd::string_view> a) const
+  {
+    std::vector<std::string> v;
+    for (auto &s : a)
+      v.push_back(s.size() ? std::string(s.data(), s.size()) : std::string());
+    return O(std::move(v));
+  }
+  template <class T>
+  O operator()(otel::nostd::span<const T> a) const
+  {
+    return O(std::vector<T>(a.begin(), a.end()));
+  }
+};
+
+// message-only overloads (Log(severity, message), Info(message) ...) carry no attributes: the emit
+// marker travels at the front of the message instead
+const char kBodyMarker[] = "vh.marker=";
+
 class CaptureExporter final : public sdkl::LogRecordExporter
 {
 public:
@@ -75,7 +128,7 @@ public:
       const otel::nostd::span<std::unique_ptr<sdkl::Recordable>> &batch) noexcept override
   {
     std::lock_guard<std::mutex> g(sink_->mu);
-    otel::sdk::common::AttributeConverter conv;
+    ToOwned conv;
     for (auto &r : batch)
     {
       auto &d = static_cast<sdkl::ReadWriteLogRecord &>(*r);
@@ -89,6 +142,24 @@ public:
         c.attrs[kv.first] = otel::nostd::visit(conv, kv.second);
         if (kv.first == "vh.marker" && otel::nostd::holds_alternative<int64_t>(kv.second))
           c.marker = otel::nostd::get<int64_t>(kv.second);
+      }
+      if (c.marker < 0 && otel::nostd::holds_alternative<std::string>(c.body))
+      {
+        const std::string &b = otel::nostd::get<std::string>(c.body);
+        size_t semi          = b.find(';');
+        if (b.compare(0, sizeof(kBodyMarker) - 1, kBodyMarker) == 0 && semi != std::string::npos &&
+            semi > sizeof(kBodyMarker) - 1 && semi < sizeof(kBodyMarker) + 8)
+        {
+          int64_t m = 0;
+          bool ok   = true;
+          for (size_t q = sizeof(kBodyMarker) - 1; q < semi; ++q)
+          {
+            ok = ok && b[q] >= '0' && b[q] <= '9';
+            m  = m * 10 + (b[q] - '0');
+          }
+          if (ok)
+            c.marker = m;
+        }
       }
       c.ts_ns      = d.GetTimestamp().time_since_epoch().count();
       c.event_id   = d.GetEventId();
@@ -134,7 +205,13 @@ struct Expected
   std::string event_name;
   std::string trace_id, span_id;
   uint8_t flags;
-  int logger;  // which logger (scope) emitted it
+  // second admissible identity (two-sided): the active span's context was INVALID but not all-zero -
+  // "carries that span's ids" (verbatim copy) and "no active span => all-zero" are both defensible
+  bool has_alt = false;
+  std::string alt_trace_id, alt_span_id;
+  uint8_t alt_flags = 0;
+  bool marker_attr = true;  // false: message-only overload, the marker is at the front of the body
+  int logger;               // which logger (scope) emitted it
 };
 
 struct LoggerInfo
@@ -213,7 +290,27 @@ Setup make_setup(vh::Case &c)
 }
 
 // ------------------------------------------------------------------------------------------------
+// Finding "C13-eventid-noname" (FIXED in /repo 57cc648): an EventId built WITHOUT a name
+// (EventId(int64_t); Log/Trace..Fatal(int64_t event_id, format, attributes)) made
+// LogRecordSetterTrait<EventId>::Set evaluate nostd::string_view{nullptr} = strlen(nullptr).
+// The shape is generated; were the finding ever listed as open again, the generator would give
+// such an EventId the empty NAME instead.  Witness independent of the generators: target
+// eventid_noname_witness (replays/C13/C13-eventid-noname.json).
+const bool kHoldBack_eventid_noname = false;
+
+bool eventid_noname_allowed()
+{
+  if (vh::excluded("C13-eventid-noname"))
+  {
+    vh::count_excluded("C13-eventid-noname");
+    return false;
+  }
+  return !kHoldBack_eventid_noname;
+}
+
+// ------------------------------------------------------------------------------------------------
 // the variadic family: each entry emits with one fixed argument order
+using PairVec = std::vector<std::pair<otel::nostd::string_view, otel::common::AttributeValue>>;
 struct Args
 {
   lg::Severity sev;
@@ -234,6 +331,49 @@ struct Args
   otel::common::SystemTimestamp ts;
   int64_t ev_id;
   std::string ev_name;
+  // --- argument kinds added later
+  std::chrono::system_clock::time_point tp;
+  otel::nostd::string_view fmt;            // body / message / format as a string_view lvalue
+  const char *body_cstr         = nullptr;  // body as a NUL terminated C string
+  std::string *body_str         = nullptr;  // body as a std::string lvalue (dies after Emit)
+  const sg::MValue *scalar      = nullptr;  // body as a bare bool / int32_t / ... / double
+  otel::common::AttributeValue body2;       // a second body argument (the later one wins)
+  const otel::common::KeyValueIterable *attrs_m = nullptr;  // attrs + marker in ONE iterable
+  PairVec *pvec                                 = nullptr;  // attrs as pairs of (view, AttributeValue)
+  std::map<std::string, otel::common::AttributeValue> *avmap = nullptr;
+  std::map<std::string, int> *imap                           = nullptr;
+  otel::nostd::string_view ilk1, ilk2;      // initializer_list entries
+  otel::common::AttributeValue ilv1, ilv2;
+  int helper      = 0;      // 0..5 = Trace, Debug, Info, Warn, Error, Fatal
+  bool noname_ok  = false;  // see kHoldBack_eventid_noname
+};
+
+enum BodyKind
+{
+  BK_AV = 0,     // AttributeValue lvalue
+  BK_VIEW,       // nostd::string_view lvalue
+  BK_CSTR,       // const char *
+  BK_LITERAL,    // string literal
+  BK_STDSTRING,  // std::string lvalue
+  BK_SCALAR,     // bare bool / int32_t / uint32_t / int64_t / uint64_t / double
+  BK_MSG         // string_view message that starts with the emit marker (overloads without attributes)
+};
+enum AttrKind
+{
+  AK_KVI = 0,  // KeyValueIterable
+  AK_SPAN,     // MakeAttributes(span<const pair<string_view, AttributeValue>>)
+  AK_ILIST,    // MakeAttributes({{k, v}, {k, v}})
+  AK_AVMAP,    // std::map<std::string, AttributeValue>
+  AK_INTMAP,   // std::map<std::string, int>
+  AK_PAIRVEC,  // std::vector<std::pair<string_view, AttributeValue>>
+  AK_VIEW      // MakeAttributes(container) = KeyValueIterableView<container> temporary
+};
+enum FormFlags
+{
+  kEvNoName = 1,  // the EventId has no name (defect candidate C13-eventid-noname)
+  kHelper   = 2,  // severity helper selected by Args::helper
+  kNonTmpl  = 4,  // resolves to a NON-template overload (virtual Log / the wrappers built on it)
+  kTimePt   = 8   // the timestamp is passed as system_clock::time_point
 };
 
 struct Form
@@ -242,14 +382,99 @@ struct Form
   bool sev, body, attrs, ctx, ids, ts, ev;
   void (*emit)(lg::Logger &, Args &);
   // arguments of one call that write the same field: they apply left to right (last one wins)
-  // 0 none, 1 attrs then attrs2, 2 ctx then tf2, 3 tf2 then ctx, 4 sev then sev2
+  // 0 none, 1 attrs then attrs2, 2 ctx then tf2, 3 tf2 then ctx, 4 sev then sev2, 5 body then body2
   int overlap = 0;
   // 1 std::map<string,string>, 2 vector<pair<string,string>>, 3 unordered_map<string,string> passed
   // directly (only used when every processor exports inside Emit: the container is alive then)
   int owning = 0;
+  int partial  = 0;  // explicit identity supplied only in part: bit 1 TraceId, 2 SpanId, 4 TraceFlags
+  int bodykind = BK_AV;
+  int attrkind = AK_KVI;
+  int flags    = 0;
 };
 
+const lg::Severity kHelperSeverity[6] = {lg::Severity::kTrace, lg::Severity::kDebug, lg::Severity::kInfo,
+                                         lg::Severity::kWarn,  lg::Severity::kError, lg::Severity::kFatal};
+const char *const kHelperName[6]      = {"Trace", "Debug", "Info", "Warn", "Error", "Fatal"};
+
+// every argument is an lvalue of exactly the parameter type of one NON-template overload, so overload
+// resolution ties with the variadic template and the non-template wins
+template <class... T>
+void call_helper(lg::Logger &l, int h, T &...t)
+{
+  switch (h)
+  {
+    case 0:
+      l.Trace(t...);
+      break;
+    case 1:
+      l.Debug(t...);
+      break;
+    case 2:
+      l.Info(t...);
+      break;
+    case 3:
+      l.Warn(t...);
+      break;
+    case 4:
+      l.Error(t...);
+      break;
+    default:
+      l.Fatal(t...);
+      break;
+  }
+}
+
+// body passed as a bare scalar of its own C++ type
+template <class Fn>
+void with_scalar(const sg::MValue &m, Fn &&fn)
+{
+  switch (m.index())
+  {
+    case 0:
+    {
+      bool v = std::get<0>(m);
+      fn(v);
+      break;
+    }
+    case 1:
+    {
+      int32_t v = std::get<1>(m);
+      fn(v);
+      break;
+    }
+    case 2:
+    {
+      uint32_t v = std::get<2>(m);
+      fn(v);
+      break;
+    }
+    case 3:
+    {
+      int64_t v = std::get<3>(m);
+      fn(v);
+      break;
+    }
+    case 4:
+    {
+      uint64_t v = std::get<4>(m);
+      fn(v);
+      break;
+    }
+    default:
+    {
+      double v = std::get<5>(m);
+      fn(v);
+      break;
+    }
+  }
+}
+
 #define EV(a) lg::EventId((a).ev_id, (a).ev_name)
+// an EventId without a name (with the empty name while the defect candidate is held back)
+#define EV0(a) ((a).noname_ok ? lg::EventId((a).ev_id) : lg::EventId((a).ev_id, ""))
+#define PSPAN(a) \
+  otel::common::MakeAttributes(otel::nostd::span<const PairVec::value_type>((a).pvec->data(), (a).pvec->size()))
 const Form kForms[] = {
     {"(S,B,M)", true, true, false, false, false, false, false,
      [](lg::Logger &l, Args &a) { l.EmitLogRecord(a.sev, a.body, *a.marker); }},
@@ -301,6 +526,123 @@ const Form kForms[] = {
      [](lg::Logger &l, Args &a) { l.EmitLogRecord(*a.svec, *a.marker, a.body); }, 0, 2},
     {"Info(B,unordered_map<string,string>,M)", true, true, false, false, false, false, false,
      [](lg::Logger &l, Args &a) { l.Info(a.body, *a.sumap, *a.marker); }, 0, 3},
+    // ---------------------------------------------------------------------------------------------
+    // added by the strengthening round; name, sev, body, attrs, ctx, ids, ts, ev, emit, overlap, owning,
+    // partial, bodykind, attrkind, flags
+    // --- EventId without a name
+    {"(E0,S,B,M)", true, true, false, false, false, false, true,
+     [](lg::Logger &l, Args &a) { l.EmitLogRecord(EV0(a), a.sev, a.body, *a.marker); }, 0, 0, 0, BK_AV, AK_KVI,
+     kEvNoName},
+    {"(S,B,A,M,E0,T)", true, true, true, false, false, true, true,
+     [](lg::Logger &l, Args &a) { l.EmitLogRecord(a.sev, a.body, *a.attrs, *a.marker, EV0(a), a.ts); }, 0, 0, 0,
+     BK_AV, AK_KVI, kEvNoName},
+    // --- the non-template virtual Log(...) family
+    {"Log(S,E,fmt,A+M)", true, true, true, false, false, false, true,
+     [](lg::Logger &l, Args &a) {
+       const lg::EventId ev(a.ev_id, a.ev_name);
+       l.Log(a.sev, ev, a.fmt, *a.attrs_m);
+     },
+     0, 0, 0, BK_VIEW, AK_KVI, kNonTmpl},
+    {"Log(S,int64 id,fmt,A+M)", true, true, true, false, false, false, true,
+     [](lg::Logger &l, Args &a) {
+       if (a.noname_ok)
+         l.Log(a.sev, a.ev_id, a.fmt, *a.attrs_m);
+       else
+       {
+         const lg::EventId ev(a.ev_id, "");
+         l.Log(a.sev, ev, a.fmt, *a.attrs_m);
+       }
+     },
+     0, 0, 0, BK_VIEW, AK_KVI, kNonTmpl | kEvNoName},
+    {"Log(S,fmt,A+M)", true, true, true, false, false, false, false,
+     [](lg::Logger &l, Args &a) { l.Log(a.sev, a.fmt, *a.attrs_m); }, 0, 0, 0, BK_VIEW, AK_KVI, kNonTmpl},
+    {"Log(S,msg)", true, true, false, false, false, false, false,
+     [](lg::Logger &l, Args &a) { l.Log(a.sev, a.fmt); }, 0, 0, 0, BK_MSG, AK_KVI, kNonTmpl},
+    // --- the non-template Trace..Fatal wrappers
+    {"helper(E,fmt,A+M)", true, true, true, false, false, false, true,
+     [](lg::Logger &l, Args &a) {
+       const lg::EventId ev(a.ev_id, a.ev_name);
+       call_helper(l, a.helper, ev, a.fmt, *a.attrs_m);
+     },
+     0, 0, 0, BK_VIEW, AK_KVI, kNonTmpl | kHelper},
+    {"helper(int64 id,fmt,A+M)", true, true, true, false, false, false, true,
+     [](lg::Logger &l, Args &a) {
+       if (a.noname_ok)
+         call_helper(l, a.helper, a.ev_id, a.fmt, *a.attrs_m);
+       else
+       {
+         const lg::EventId ev(a.ev_id, "");
+         call_helper(l, a.helper, ev, a.fmt, *a.attrs_m);
+       }
+     },
+     0, 0, 0, BK_VIEW, AK_KVI, kNonTmpl | kHelper | kEvNoName},
+    {"helper(fmt,A+M)", true, true, true, false, false, false, false,
+     [](lg::Logger &l, Args &a) { call_helper(l, a.helper, a.fmt, *a.attrs_m); }, 0, 0, 0, BK_VIEW, AK_KVI,
+     kNonTmpl | kHelper},
+    {"helper(msg)", true, true, false, false, false, false, false,
+     [](lg::Logger &l, Args &a) { call_helper(l, a.helper, a.fmt); }, 0, 0, 0, BK_MSG, AK_KVI,
+     kNonTmpl | kHelper},
+    // --- body kinds of the variadic template
+    {"(S,string_view,M)", true, true, false, false, false, false, false,
+     [](lg::Logger &l, Args &a) { l.EmitLogRecord(a.sev, a.fmt, *a.marker); }, 0, 0, 0, BK_VIEW},
+    {"(M,const char*,S)", true, true, false, false, false, false, false,
+     [](lg::Logger &l, Args &a) { l.EmitLogRecord(*a.marker, a.body_cstr, a.sev); }, 0, 0, 0, BK_CSTR},
+    {"(S,\"literal\",A,M)", true, true, true, false, false, false, false,
+     [](lg::Logger &l, Args &a) { l.EmitLogRecord(a.sev, "literal body", *a.attrs, *a.marker); }, 0, 0, 0,
+     BK_LITERAL},
+    {"(S,std::string,M)", true, true, false, false, false, false, false,
+     [](lg::Logger &l, Args &a) { l.EmitLogRecord(a.sev, *a.body_str, *a.marker); }, 0, 0, 0, BK_STDSTRING},
+    {"Debug(std::string,A,M)", true, true, true, false, false, false, false,
+     [](lg::Logger &l, Args &a) { l.Debug(*a.body_str, *a.attrs, *a.marker); }, 0, 0, 0, BK_STDSTRING},
+    {"(S,bare scalar,M)", true, true, false, false, false, false, false,
+     [](lg::Logger &l, Args &a) {
+       with_scalar(*a.scalar, [&](auto &v) { l.EmitLogRecord(a.sev, v, *a.marker); });
+     },
+     0, 0, 0, BK_SCALAR},
+    {"(M,bare scalar)", false, true, false, false, false, false, false,
+     [](lg::Logger &l, Args &a) { with_scalar(*a.scalar, [&](auto &v) { l.EmitLogRecord(*a.marker, v); }); }, 0,
+     0, 0, BK_SCALAR},
+    {"(S,B,B2,M)", true, true, false, false, false, false, false,
+     [](lg::Logger &l, Args &a) { l.EmitLogRecord(a.sev, a.body, a.body2, *a.marker); }, 5},
+    // --- timestamp as system_clock::time_point
+    {"(S,B,M,time_point)", true, true, false, false, false, true, false,
+     [](lg::Logger &l, Args &a) { l.EmitLogRecord(a.sev, a.body, *a.marker, a.tp); }, 0, 0, 0, BK_AV, AK_KVI,
+     kTimePt},
+    {"(time_point,E,M,B)", false, true, false, false, false, true, true,
+     [](lg::Logger &l, Args &a) { l.EmitLogRecord(a.tp, EV(a), *a.marker, a.body); }, 0, 0, 0, BK_AV, AK_KVI,
+     kTimePt},
+    // --- attribute container kinds
+    {"(S,B,MakeAttributes(span),M)", true, true, true, false, false, false, false,
+     [](lg::Logger &l, Args &a) { l.EmitLogRecord(a.sev, a.body, PSPAN(a), *a.marker); }, 0, 0, 0, BK_AV, AK_SPAN},
+    {"(MakeAttributes(span),M,B)", false, true, true, false, false, false, false,
+     [](lg::Logger &l, Args &a) { l.EmitLogRecord(PSPAN(a), *a.marker, a.body); }, 0, 0, 0, BK_AV, AK_SPAN},
+    {"(S,B,MakeAttributes({..}),M)", true, true, true, false, false, false, false,
+     [](lg::Logger &l, Args &a) {
+       l.EmitLogRecord(a.sev, a.body, otel::common::MakeAttributes({{a.ilk1, a.ilv1}, {a.ilk2, a.ilv2}}), *a.marker);
+     },
+     0, 0, 0, BK_AV, AK_ILIST},
+    {"(S,B,map<string,AttributeValue>,M)", true, true, true, false, false, false, false,
+     [](lg::Logger &l, Args &a) { l.EmitLogRecord(a.sev, a.body, *a.avmap, *a.marker); }, 0, 0, 0, BK_AV, AK_AVMAP},
+    {"Warn(map<string,int>,B,M)", true, true, true, false, false, false, false,
+     [](lg::Logger &l, Args &a) { l.Warn(*a.imap, a.body, *a.marker); }, 0, 0, 0, BK_AV, AK_INTMAP},
+    {"(vector<pair<view,AttributeValue>>,S,M,B)", true, true, true, false, false, false, false,
+     [](lg::Logger &l, Args &a) { l.EmitLogRecord(*a.pvec, a.sev, *a.marker, a.body); }, 0, 0, 0, BK_AV, AK_PAIRVEC},
+    {"(S,B,MakeAttributes(map),M)", true, true, true, false, false, false, false,
+     [](lg::Logger &l, Args &a) {
+       l.EmitLogRecord(a.sev, a.body, otel::common::MakeAttributes(*a.avmap), *a.marker);
+     },
+     0, 0, 0, BK_AV, AK_VIEW},
+    // --- explicit identity supplied only in part: the other fields stay the active span's
+    {"(S,B,M,Sid)", true, true, false, false, false, false, false,
+     [](lg::Logger &l, Args &a) { l.EmitLogRecord(a.sev, a.body, *a.marker, a.sid); }, 0, 0, 2},
+    {"(Tid,M,B)", false, true, false, false, false, false, false,
+     [](lg::Logger &l, Args &a) { l.EmitLogRecord(a.tid, *a.marker, a.body); }, 0, 0, 1},
+    {"(Tf,B,M)", false, true, false, false, false, false, false,
+     [](lg::Logger &l, Args &a) { l.EmitLogRecord(a.tf, a.body, *a.marker); }, 0, 0, 4},
+    {"(S,Sid,Tid,B,M)", true, true, false, false, false, false, false,
+     [](lg::Logger &l, Args &a) { l.EmitLogRecord(a.sev, a.sid, a.tid, a.body, *a.marker); }, 0, 0, 3},
+    {"(B,M,Tf,Sid)", false, true, false, false, false, false, false,
+     [](lg::Logger &l, Args &a) { l.EmitLogRecord(a.body, *a.marker, a.tf, a.sid); }, 0, 0, 6},
 };
 constexpr size_t kNumForms = sizeof(kForms) / sizeof(kForms[0]);
 
@@ -309,29 +651,243 @@ int gen_severity(vh::Reader &rd)
   return 1 + static_cast<int>(rd.below(24));  // kTrace .. kFatal4
 }
 
+std::chrono::system_clock::time_point tp_of(int64_t ns)
+{
+  return std::chrono::system_clock::time_point(
+      std::chrono::duration_cast<std::chrono::system_clock::duration>(std::chrono::nanoseconds(ns)));
+}
+
 otel::common::SystemTimestamp ts_of(int64_t ns)
 {
-  return otel::common::SystemTimestamp(std::chrono::system_clock::time_point(
-      std::chrono::duration_cast<std::chrono::system_clock::duration>(std::chrono::nanoseconds(ns))));
+  return otel::common::SystemTimestamp(tp_of(ns));
 }
+
+// ------------------------------------------------------------------------------------------------
+// real SDK spans with ids drawn from the choice stream
+namespace sdkt = opentelemetry::sdk::trace;
+class StreamIds final : public sdkt::IdGenerator
+{
+public:
+  StreamIds() : sdkt::IdGenerator(false) {}
+  tr::SpanId GenerateSpanId() noexcept override { return sid; }
+  tr::TraceId GenerateTraceId() noexcept override { return tid; }
+  tr::SpanId sid;
+  tr::TraceId tid;
+};
+class SwitchSampler final : public sdkt::Sampler
+{
+public:
+  sdkt::SamplingResult ShouldSample(const tr::SpanContext &, tr::TraceId, otel::nostd::string_view, tr::SpanKind,
+                                    const otel::common::KeyValueIterable &,
+                                    const tr::SpanContextKeyValueIterable &) noexcept override
+  {
+    return {decision, nullptr, {}};
+  }
+  otel::nostd::string_view GetDescription() const noexcept override { return "SwitchSampler"; }
+  sdkt::Decision decision = sdkt::Decision::RECORD_AND_SAMPLE;
+};
+class NullSpanProcessor final : public sdkt::SpanProcessor
+{
+public:
+  std::unique_ptr<sdkt::Recordable> MakeRecordable() noexcept override
+  {
+    return std::unique_ptr<sdkt::Recordable>(new sdkt::SpanData());
+  }
+  void OnStart(sdkt::Recordable &, const tr::SpanContext &) noexcept override {}
+  void OnEnd(std::unique_ptr<sdkt::Recordable> &&) noexcept override {}
+  bool ForceFlush(std::chrono::microseconds) noexcept override { return true; }
+  bool Shutdown(std::chrono::microseconds) noexcept override { return true; }
+};
+struct SdkTracing
+{
+  StreamIds *ids         = nullptr;
+  SwitchSampler *sampler = nullptr;
+  std::shared_ptr<sdkt::TracerProvider> provider;
+  otel::nostd::shared_ptr<tr::Tracer> tracer;
+  SdkTracing()
+  {
+    ids     = new StreamIds();
+    sampler = new SwitchSampler();
+    provider.reset(new sdkt::TracerProvider(std::unique_ptr<sdkt::SpanProcessor>(new NullSpanProcessor()),
+                                            otel::sdk::resource::Resource::Create({}),
+                                            std::unique_ptr<sdkt::Sampler>(sampler),
+                                            std::unique_ptr<sdkt::IdGenerator>(ids)));
+    tracer = provider->GetTracer("vh-c13-tracer");
+  }
+};
+
+// one frame of the calling thread's context stack
+struct Active
+{
+  tr::SpanContext cx = tr::SpanContext::GetInvalid();  // identity a record created now must carry
+  bool present   = false;  // a span / span context is active: cx is what CreateLogRecord has to copy
+  bool null_span = false;  // the span key holds a null shared_ptr<Span> (Tracer::GetCurrentSpan unusable)
+  std::unique_ptr<tr::Scope> scope;
+  otel::nostd::unique_ptr<otel::context::Token> token;
+};
 
 struct ThreadState
 {
-  std::vector<std::pair<tr::SpanContext, std::unique_ptr<tr::Scope>>> scopes;
+  std::unique_ptr<SdkTracing> sdk;  // declared first: destroyed after the frames
+  std::vector<Active> scopes;
+  std::set<std::string> tags;
+  void clear()
+  {
+    while (!scopes.empty())
+      scopes.pop_back();
+  }
+  ~ThreadState() { clear(); }
 };
+
+bool all_zero(const tr::SpanContext &cx)
+{
+  return !cx.trace_id().IsValid() && !cx.span_id().IsValid() && cx.trace_flags().flags() == 0;
+}
+
+// pushes one frame; kind: 1 DefaultSpan(valid), 3 SpanContext under the span key, 4 null / non-span
+// value under the span key, 5 unrelated key on top, 6 DefaultSpan(invalid, usually not all-zero),
+// 7 SDK span (recording | ended | dropped)
+void push_frame(vh::Reader &rd, ThreadState &ts, size_t kind, std::string &notes, const std::string &label)
+{
+  namespace ctx = otel::context;
+  Active f;
+  const bool below_null = !ts.scopes.empty() && ts.scopes.back().null_span;
+  if (kind == 7 && below_null)
+    kind = 1;  // Tracer::StartSpan dereferences the current span pointer; not this property's business
+  switch (kind)
+  {
+    case 3:
+    {
+      f.cx      = sg::gen_span_context(rd, true);
+      f.present = true;
+      otel::nostd::shared_ptr<tr::SpanContext> p(new tr::SpanContext(f.cx));
+      f.token = ctx::RuntimeContext::Attach(ctx::RuntimeContext::GetCurrent().SetValue(tr::kSpanKey, p));
+      notes += " " + label + "attach SpanContext-under-span-key " + sg::show_ctx(f.cx) + "\n";
+      ts.tags.insert("active:SpanContext-in-context");
+      break;
+    }
+    case 4:
+    {
+      ctx::ContextValue v;
+      const char *how = "";
+      switch (rd.below(3))
+      {
+        case 0:
+          v           = otel::nostd::shared_ptr<tr::Span>(nullptr);
+          how         = "null Span pointer";
+          f.null_span = true;
+          break;
+        case 1:
+          v   = otel::nostd::shared_ptr<tr::SpanContext>(nullptr);
+          how = "null SpanContext pointer";
+          break;
+        default:
+          v   = true;
+          how = "bool";
+          break;
+      }
+      f.token = ctx::RuntimeContext::Attach(ctx::RuntimeContext::GetCurrent().SetValue(tr::kSpanKey, v));
+      notes += " " + label + "attach " + how + " under the span key (no active span)\n";
+      ts.tags.insert("active:null-or-non-span-under-key");
+      break;
+    }
+    case 5:
+    {
+      if (!ts.scopes.empty())
+      {
+        f.cx        = ts.scopes.back().cx;
+        f.present   = ts.scopes.back().present;
+        f.null_span = ts.scopes.back().null_span;
+      }
+      f.token = ctx::RuntimeContext::Attach(
+          ctx::RuntimeContext::GetCurrent().SetValue("vh.unrelated", static_cast<int64_t>(ts.scopes.size())));
+      notes += " " + label + "attach unrelated key on top\n";
+      ts.tags.insert("active:unrelated-key-on-top");
+      break;
+    }
+    case 6:
+    {
+      f.cx      = sg::gen_span_context(rd, false);
+      f.present = true;
+      otel::nostd::shared_ptr<tr::Span> sp(new tr::DefaultSpan(f.cx));
+      f.scope.reset(new tr::Scope(sp));
+      notes += " " + label + "activate INVALID " + sg::show_ctx(f.cx) + "\n";
+      ts.tags.insert(all_zero(f.cx) ? "active:invalid-all-zero" : "active:invalid-but-non-zero");
+      break;
+    }
+    case 7:
+    {
+      if (!ts.sdk)
+        ts.sdk.reset(new SdkTracing());
+      ts.sdk->ids->tid = sg::gen_trace_id(rd);
+      ts.sdk->ids->sid = sg::gen_span_id(rd);
+      size_t how       = rd.below(3);
+      ts.sdk->sampler->decision =
+          how == 2 ? sdkt::Decision::DROP : (rd.coin() ? sdkt::Decision::RECORD_ONLY : sdkt::Decision::RECORD_AND_SAMPLE);
+      auto span = ts.sdk->tracer->StartSpan("vh-span");
+      if (how == 1)
+        span->End();
+      f.cx      = span->GetContext();
+      f.present = true;
+      f.scope.reset(new tr::Scope(span));
+      static const char *const names[] = {"recording", "ended", "dropped"};
+      notes += " " + label + "activate SDK span (" + names[how] + ") " + sg::show_ctx(f.cx) + "\n";
+      ts.tags.insert(std::string("active:sdk-span-") + names[how]);
+      break;
+    }
+    default:
+    {
+      f.cx      = sg::gen_span_context(rd, true);
+      f.present = true;
+      otel::nostd::shared_ptr<tr::Span> sp(new tr::DefaultSpan(f.cx));
+      f.scope.reset(new tr::Scope(sp));
+      notes += " " + label + "activate " + sg::show_ctx(f.cx) + "\n";
+      break;
+    }
+  }
+  ts.scopes.push_back(std::move(f));
+}
 
 // one emit; returns the expectation (or marker -1 when nothing must be exported)
 struct EmitStats
 {
   bool nonscalar = false, active_span = false, deferred_nonscalar = false;
+  std::set<std::string> tags;
 };
 
+// caller storage of one emit: everything the SDK gets a view of lives here and dies as one unit
+struct Store
+{
+  sg::Arena arena;
+  std::unique_ptr<std::string> body_str;
+  void release()
+  {
+    arena.release();
+    body_str.reset();
+  }
+};
+
+lg::Severity fixed_helper_severity(const char *name, bool *found)
+{
+  for (int h = 0; h < 6; ++h)
+  {
+    std::string prefix = std::string(kHelperName[h]) + "(";
+    if (std::string(name).rfind(prefix, 0) == 0)
+    {
+      *found = true;
+      return kHelperSeverity[h];
+    }
+  }
+  *found = false;
+  return lg::Severity::kInvalid;
+}
+
 void do_emit(vh::Reader &rd, Setup &s, ThreadState &ts, int64_t marker, std::vector<Expected> &expected,
-             std::string &notes, EmitStats &st, std::vector<std::unique_ptr<sg::Arena>> &parked,
+             std::string &notes, EmitStats &st, std::vector<std::unique_ptr<Store>> &parked,
              const std::string &label)
 {
-  std::unique_ptr<sg::Arena> arena(new sg::Arena());
-  sg::Arena &a = *arena;
+  std::unique_ptr<Store> store(new Store());
+  sg::Arena &a = store->arena;
   size_t li    = rd.below(static_cast<uint32_t>(s.loggers.size()));
   LoggerInfo &L = s.loggers[li];
   Expected e;
@@ -343,22 +899,41 @@ void do_emit(vh::Reader &rd, Setup &s, ThreadState &ts, int64_t marker, std::vec
   e.ts_ns       = 0;
   e.event_given = false;
   e.event_id    = 0;
-  e.trace_id    = std::string(32, '0');
-  e.span_id     = std::string(16, '0');
-  e.flags       = 0;
+  e.trace_id = e.alt_trace_id = std::string(32, '0');
+  e.span_id = e.alt_span_id = std::string(16, '0');
+  e.flags = e.alt_flags = 0;
   tr::SpanContext active = tr::SpanContext::GetInvalid();
+  bool active_present    = false;
   if (!ts.scopes.empty())
   {
-    active         = ts.scopes.back().first;
-    st.active_span = true;
+    active         = ts.scopes.back().cx;
+    active_present = ts.scopes.back().present;
   }
+  // explicit identity (whole or in part) is written to both admissible expectations
+  auto set_tid = [&](const tr::TraceId &t) { e.trace_id = e.alt_trace_id = sg::hex(t); };
+  auto set_sid = [&](const tr::SpanId &x) { e.span_id = e.alt_span_id = sg::hex(x); };
+  auto set_tf  = [&](const tr::TraceFlags &f) { e.flags = e.alt_flags = f.flags(); };
   auto set_identity = [&](const tr::SpanContext &cx) {
-    e.trace_id = sg::hex(cx.trace_id());
-    e.span_id  = sg::hex(cx.span_id());
-    e.flags    = cx.trace_flags().flags();
+    set_tid(cx.trace_id());
+    set_sid(cx.span_id());
+    set_tf(cx.trace_flags());
   };
-  if (active.IsValid())
-    set_identity(active);
+  if (active_present)
+  {
+    if (active.IsValid())
+    {
+      set_identity(active);
+      st.active_span = true;
+    }
+    else if (!all_zero(active))
+    {
+      // an active span whose context is invalid: a verbatim copy and all-zero are both accepted
+      e.trace_id = sg::hex(active.trace_id());
+      e.span_id  = sg::hex(active.span_id());
+      e.flags    = active.trace_flags().flags();
+      e.has_alt  = true;
+    }
+  }
 
   sg::MValue body      = sg::gen_value(rd);
   sg::KVList attr_list = sg::gen_kvlist(rd, 5);
@@ -372,9 +947,17 @@ void do_emit(vh::Reader &rd, Setup &s, ThreadState &ts, int64_t marker, std::vec
     ev_name = "evt";  // EventId copies its name as a C string by design
   bool null_record = rd.chance(5);
   size_t style     = rd.weighted({6, 4});
-  bool nonscalar   = body.index() >= 6;
+  bool attrs_nonscalar = false;
   for (auto &kv : attr_list)
-    nonscalar = nonscalar || kv.second.index() >= 6;
+    attrs_nonscalar = attrs_nonscalar || kv.second.index() >= 6;
+  bool body_nonscalar = body.index() >= 6;
+
+  // a second container that re-binds up to two keys of the first one and adds one of its own
+  sg::KVList attr_list2;
+  for (size_t q = 0; q < attr_list.size() && q < 2; ++q)
+    attr_list2.emplace_back(attr_list[q].first, sg::MValue(static_cast<int64_t>(1000 + q)));
+  attr_list2.emplace_back("second.only", sg::MValue(true));
+  const lg::Severity sev2 = static_cast<lg::Severity>(1 + (sev % 24));
 
   std::string what;
   if (style == 0)
@@ -385,18 +968,53 @@ void do_emit(vh::Reader &rd, Setup &s, ThreadState &ts, int64_t marker, std::vec
     const Form &f = *fp;
     what          = std::string("Emit") + f.name;
     Args args;
-    args.sev  = static_cast<lg::Severity>(sev);
-    args.body = sg::to_api(body, a, rd.coin());
+    args.sev = static_cast<lg::Severity>(sev);
+    // --- the body in the spelling the form asks for
+    const bool body_cstr_form = rd.coin();
+    std::string bstr;  // the text of string-typed bodies
+    if (f.bodykind != BK_AV && f.bodykind != BK_SCALAR)
+    {
+      bstr = body.index() == 6 ? std::get<6>(body) : sg::show_mvalue(body);
+      if (f.bodykind == BK_LITERAL)
+        bstr = "literal body";
+      if (f.bodykind == BK_CSTR)
+        for (auto &ch : bstr)
+          if (ch == '\0')
+            ch = '0';
+      if (f.bodykind == BK_MSG)
+        bstr = kBodyMarker + std::to_string(marker) + ";" + bstr;
+      body           = sg::MValue(bstr);
+      body_nonscalar = f.bodykind != BK_LITERAL;  // a literal never dies
+      st.tags.insert(f.bodykind == BK_VIEW        ? "body:string_view"
+                     : f.bodykind == BK_CSTR      ? "body:const char*"
+                     : f.bodykind == BK_LITERAL   ? "body:literal"
+                     : f.bodykind == BK_STDSTRING ? "body:std::string"
+                                                  : "body:message-only overload");
+    }
+    if (f.bodykind == BK_SCALAR)
+    {
+      if (body.index() > 5)
+        body = sg::MValue(sg::gen_int<int32_t>(rd));
+      body_nonscalar = false;
+      st.tags.insert("body:bare scalar");
+    }
+    args.body   = sg::to_api(body, a, body_cstr_form);
+    args.scalar = &body;
+    if (f.bodykind == BK_VIEW || f.bodykind == BK_MSG)
+      args.fmt = a.view(bstr);
+    if (f.bodykind == BK_CSTR)
+      args.body_cstr = a.cstr(bstr);
+    if (f.bodykind == BK_STDSTRING)
+    {
+      store->body_str.reset(new std::string(bstr));
+      args.body_str = store->body_str.get();
+    }
+    args.body2 = otel::common::AttributeValue(ev_id);
     sg::ArenaKV akv(attr_list, a, rd.coin());
     sg::ArenaKV mkv(marker_l, a);
-    // a second container that re-binds up to two keys of the first one and adds one of its own
-    sg::KVList attr_list2;
-    for (size_t q = 0; q < attr_list.size() && q < 2; ++q)
-      attr_list2.emplace_back(attr_list[q].first, sg::MValue(static_cast<int64_t>(1000 + q)));
-    attr_list2.emplace_back("second.only", sg::MValue(true));
     sg::ArenaKV akv2(attr_list2, a);
     args.attrs2 = &akv2;
-    args.sev2   = static_cast<lg::Severity>(1 + (sev % 24));
+    args.sev2   = sev2;
     args.tf2    = tr::TraceFlags(static_cast<uint8_t>(xctx.trace_flags().flags() ^ 0x01));
     // string-owning containers with 1..3 entries (values long enough to defeat the small-string buffer
     // sometimes, so that a view into a destroyed copy points to freed heap memory)
@@ -420,6 +1038,64 @@ void do_emit(vh::Reader &rd, Setup &s, ThreadState &ts, int64_t marker, std::vec
       args.sumap = &sumap;
       notes += " " + label + "[string-owning container, " + std::to_string(n) + " entries]";
     }
+    // --- the attributes in the container kind the form asks for (all die when this block ends;
+    //     the values they hold are views into the arena)
+    sg::KVList attrs_m_list = attr_list;
+    attrs_m_list.emplace_back("vh.marker", sg::MValue(marker));
+    sg::ArenaKV akv_m(attrs_m_list, a, body_cstr_form);
+    args.attrs_m = &akv_m;
+    PairVec pvec;
+    std::map<std::string, otel::common::AttributeValue> avmap;
+    std::map<std::string, int> imap;
+    sg::KVList attr_model = attr_list;  // what the attribute argument of this form means
+    switch (f.attrkind)
+    {
+      case AK_SPAN:
+      case AK_PAIRVEC:
+        for (auto &kv : attr_list)
+          pvec.emplace_back(a.view(kv.first), sg::to_api(kv.second, a, body_cstr_form));
+        st.tags.insert(f.attrkind == AK_SPAN ? "attrs:MakeAttributes(span)" : "attrs:vector<pair<view,AttributeValue>>");
+        break;
+      case AK_AVMAP:
+      case AK_VIEW:
+        for (auto &kv : attr_list)
+          avmap[kv.first] = sg::to_api(kv.second, a, body_cstr_form);
+        st.tags.insert(f.attrkind == AK_AVMAP ? "attrs:map<string,AttributeValue>" : "attrs:MakeAttributes(map) view");
+        break;
+      case AK_INTMAP:
+      {
+        attr_model.clear();
+        int n = 0;
+        for (auto &kv : attr_list)
+        {
+          imap[kv.first] = 100 + n;
+          attr_model.emplace_back(kv.first, sg::MValue(static_cast<int32_t>(100 + n)));
+          ++n;
+        }
+        attrs_nonscalar = false;
+        st.tags.insert("attrs:map<string,int>");
+        break;
+      }
+      case AK_ILIST:
+      {
+        attr_model.clear();
+        attr_model.emplace_back(attr_list.empty() ? std::string("il.a") : attr_list[0].first,
+                                attr_list.empty() ? sg::MValue(static_cast<int64_t>(7)) : attr_list[0].second);
+        attr_model.emplace_back("il.b", sg::MValue(static_cast<int32_t>(sev)));
+        args.ilk1 = a.view(attr_model[0].first);
+        args.ilv1 = sg::to_api(attr_model[0].second, a, body_cstr_form);
+        args.ilk2 = a.view(attr_model[1].first);
+        args.ilv2 = sg::to_api(attr_model[1].second, a);
+        attrs_nonscalar = attr_model[0].second.index() >= 6;
+        st.tags.insert("attrs:MakeAttributes(initializer_list)");
+        break;
+      }
+      default:
+        break;
+    }
+    args.pvec  = &pvec;
+    args.avmap = &avmap;
+    args.imap  = &imap;
     args.attrs   = &akv;
     args.marker  = &mkv;
     args.ctx     = xctx;
@@ -427,22 +1103,50 @@ void do_emit(vh::Reader &rd, Setup &s, ThreadState &ts, int64_t marker, std::vec
     args.sid     = xctx.span_id();
     args.tf      = xctx.trace_flags();
     args.ts      = ts_of(ts_ns);
+    args.tp      = tp_of(ts_ns);
     args.ev_id   = ev_id;
     args.ev_name = ev_name;
+    if (f.flags & kHelper)
+    {
+      args.helper = static_cast<int>(rd.below(6));
+      what += std::string("[") + kHelperName[args.helper] + "]";
+    }
+    if (f.flags & kEvNoName)
+    {
+      args.noname_ok = eventid_noname_allowed();
+      st.tags.insert(args.noname_ok ? "event-id-without-name" : "event-id-without-name(held back: empty name)");
+    }
+    if (f.flags & kNonTmpl)
+      st.tags.insert("non-template Log()/helper overload");
+    if (f.flags & kTimePt)
+      st.tags.insert("timestamp:time_point");
     if (f.sev)
-      e.severity = std::string(f.name).rfind("Info", 0) == 0    ? static_cast<int>(lg::Severity::kInfo)
-                   : std::string(f.name).rfind("Error", 0) == 0 ? static_cast<int>(lg::Severity::kError)
-                   : std::string(f.name).rfind("Warn", 0) == 0  ? static_cast<int>(lg::Severity::kWarn)
-                                                                : sev;
+    {
+      bool fixed       = false;
+      lg::Severity hs  = fixed_helper_severity(f.name, &fixed);
+      e.severity       = (f.flags & kHelper) ? static_cast<int>(kHelperSeverity[args.helper])
+                         : fixed             ? static_cast<int>(hs)
+                                             : sev;
+    }
     if (f.body)
     {
       e.body_given = true;
       e.body       = body;
     }
     if (f.attrs)
-      sg::apply_last_wins(e.attrs, attr_list);
+      sg::apply_last_wins(e.attrs, attr_model);
     if (f.ctx || f.ids)
       set_identity(xctx);
+    if (f.partial)
+    {
+      if (f.partial & 1)
+        set_tid(xctx.trace_id());
+      if (f.partial & 2)
+        set_sid(xctx.span_id());
+      if (f.partial & 4)
+        set_tf(xctx.trace_flags());
+      st.tags.insert("partial-explicit-identity");
+    }
     if (f.ts)
     {
       e.ts_given = true;
@@ -454,12 +1158,15 @@ void do_emit(vh::Reader &rd, Setup &s, ThreadState &ts, int64_t marker, std::vec
         sg::apply_last_wins(e.attrs, attr_list2);
         break;
       case 2:
-        e.flags = args.tf2.flags();
+        e.flags = e.alt_flags = args.tf2.flags();
         break;
       case 3:
         break;  // the SpanContext is applied last: its flags win
       case 4:
         e.severity = static_cast<int>(args.sev2);
+        break;
+      case 5:
+        e.body = sg::MValue(ev_id);
         break;
       default:
         break;
@@ -470,22 +1177,22 @@ void do_emit(vh::Reader &rd, Setup &s, ThreadState &ts, int64_t marker, std::vec
     {
       e.event_given = true;
       e.event_id    = ev_id;
-      e.event_name  = ev_name;
+      e.event_name  = (f.flags & kEvNoName) ? std::string() : ev_name;
     }
+    e.marker_attr = f.bodykind != BK_MSG;
     f.emit(*L.logger, args);
   }
   else
   {
-    // CreateLogRecord + setters in a generated order + EmitLogRecord(record)
+    // CreateLogRecord + setters in a generated order + EmitLogRecord(record [, args...])
     what = "Create+set[";
     otel::nostd::unique_ptr<lg::LogRecord> rec = L.logger->CreateLogRecord();
     // the identity is taken from the span active at creation; the active span may change before Emit
     bool switched = false;
     if (rec && rd.chance(25))
     {
-      tr::SpanContext other = sg::gen_span_context(rd, true);
-      otel::nostd::shared_ptr<tr::Span> sp(new tr::DefaultSpan(other));
-      ts.scopes.emplace_back(other, std::unique_ptr<tr::Scope>(new tr::Scope(sp)));
+      std::string ignored;
+      push_frame(rd, ts, 1, ignored, label);
       switched = true;
       what += "activate-other,";
     }
@@ -494,7 +1201,7 @@ void do_emit(vh::Reader &rd, Setup &s, ThreadState &ts, int64_t marker, std::vec
       unsigned nset = rd.below(8);
       for (unsigned i = 0; i < nset; ++i)
       {
-        switch (rd.below(7))
+        switch (rd.below(11))
         {
           case 0:
             rec->SetSeverity(static_cast<lg::Severity>(sev));
@@ -537,6 +1244,31 @@ void do_emit(vh::Reader &rd, Setup &s, ThreadState &ts, int64_t marker, std::vec
             set_identity(xctx);
             what += "ids,";
             break;
+          case 6:
+            rec->SetTraceId(xctx.trace_id());
+            set_tid(xctx.trace_id());
+            what += "tid,";
+            st.tags.insert("partial-explicit-identity");
+            break;
+          case 7:
+            rec->SetSpanId(xctx.span_id());
+            set_sid(xctx.span_id());
+            what += "sid,";
+            st.tags.insert("partial-explicit-identity");
+            break;
+          case 8:
+            rec->SetTraceFlags(xctx.trace_flags());
+            set_tf(xctx.trace_flags());
+            what += "tf,";
+            st.tags.insert("partial-explicit-identity");
+            break;
+          case 9:
+            rec->SetEventId(ev_id + 1);  // the name parameter is defaulted
+            e.event_given = true;
+            e.event_id    = ev_id + 1;
+            e.event_name  = "";
+            what += "event-id-only,";
+            break;
           default:
             break;
         }
@@ -549,14 +1281,62 @@ void do_emit(vh::Reader &rd, Setup &s, ThreadState &ts, int64_t marker, std::vec
       rec.reset();
       what += " null-record";
     }
-    L.logger->EmitLogRecord(std::move(rec));
+    // EmitLogRecord(record) or EmitLogRecord(record, args...): the arguments are applied after the
+    // setters (so they win for the same field; attributes merge key by key)
+    size_t with_args = rd.weighted({6, 1, 1, 1, 1});
+    sg::ArenaKV akv2(attr_list2, a);
+    const otel::common::KeyValueIterable &kv2 = akv2;
+    switch (with_args)
+    {
+      case 1:
+      {
+        otel::common::AttributeValue b2(static_cast<int64_t>(7000 + marker));
+        L.logger->EmitLogRecord(std::move(rec), sev2, b2);
+        e.severity   = static_cast<int>(sev2);
+        e.body_given = true;
+        e.body       = sg::MValue(static_cast<int64_t>(7000 + marker));
+        what += " Emit(rec,S,B)";
+        break;
+      }
+      case 2:
+        L.logger->EmitLogRecord(std::move(rec), kv2);
+        sg::apply_last_wins(e.attrs, attr_list2);
+        what += " Emit(rec,A2)";
+        break;
+      case 3:
+        L.logger->EmitLogRecord(std::move(rec), xctx);
+        set_identity(xctx);
+        what += " Emit(rec,C)";
+        break;
+      case 4:
+      {
+        std::chrono::system_clock::time_point tp = tp_of(ts_ns + 1000);
+        L.logger->EmitLogRecord(std::move(rec), tp, lg::EventId(ev_id + 2, ev_name));
+        e.ts_given    = true;
+        e.ts_ns       = ts_ns + 1000;
+        e.event_given = true;
+        e.event_id    = ev_id + 2;
+        e.event_name  = ev_name;
+        what += " Emit(rec,time_point,E)";
+        break;
+      }
+      default:
+        L.logger->EmitLogRecord(std::move(rec));
+        break;
+    }
+    if (with_args)
+      st.tags.insert(null_record ? "Emit(null record,args...)" : "Emit(record,args...)");
     if (switched)
       ts.scopes.pop_back();
   }
-  e.attrs["vh.marker"] = sg::MValue(marker);
+  if (e.marker_attr)
+    e.attrs["vh.marker"] = sg::MValue(marker);
+  const bool nonscalar = body_nonscalar || attrs_nonscalar;
   notes += " " + label + "#" + std::to_string(marker) + " logger" + std::to_string(li) + " " + what + " body=" +
            sg::show_mvalue(body) + " attrs=" + sg::show_kvlist(attr_list) + " active=" +
-           (active.IsValid() ? sg::hex(active.span_id()) : "-") + "\n";
+           (active_present ? (active.IsValid() ? sg::hex(active.span_id()) : "invalid:" + sg::hex(active.span_id()))
+                           : std::string("-")) +
+           "\n";
   if (nonscalar)
     st.nonscalar = true;
   // caller storage dies as soon as Emit has returned.  Open finding F5 (ReadWriteLogRecord keeps
@@ -568,11 +1348,11 @@ void do_emit(vh::Reader &rd, Setup &s, ThreadState &ts, int64_t marker, std::vec
     if (vh::excluded("F5"))
     {
       vh::count_excluded("F5");
-      parked.push_back(std::move(arena));
+      parked.push_back(std::move(store));
     }
   }
-  if (arena)
-    arena->release();
+  if (store)
+    store->release();
   bool exported = L.enabled && !(style == 1 && null_record);
   if (exported)
     expected.push_back(e);
@@ -592,9 +1372,13 @@ void compare(vh::Case &c, const Expected &e, const Captured &g, const Setup &s, 
     VH_CHECK(c, g.event_id == e.event_id && g.event_name == e.event_name,
              who << ": event " << g.event_id << "/'" << vh::show(g.event_name) << "' expected " << e.event_id
                  << "/'" << vh::show(e.event_name) << "'");
-  VH_CHECK(c, g.trace_id == e.trace_id && g.span_id == e.span_id && g.flags == e.flags,
+  bool id_ok  = g.trace_id == e.trace_id && g.span_id == e.span_id && g.flags == e.flags;
+  bool alt_ok = e.has_alt && g.trace_id == e.alt_trace_id && g.span_id == e.alt_span_id && g.flags == e.alt_flags;
+  VH_CHECK(c, id_ok || alt_ok,
            who << ": trace identity " << g.trace_id << "/" << g.span_id << "/f" << int(g.flags) << " expected "
-               << e.trace_id << "/" << e.span_id << "/f" << int(e.flags));
+               << e.trace_id << "/" << e.span_id << "/f" << int(e.flags)
+               << (e.has_alt ? " (or " + e.alt_trace_id + "/" + e.alt_span_id + "/f" + std::to_string(e.alt_flags) + ")"
+                             : std::string()));
   const LoggerInfo &L = s.loggers[static_cast<size_t>(e.logger)];
   VH_CHECK(c, g.scope_name == L.name && g.scope_version == L.version && g.scope_schema == L.schema,
            who << ": instrumentation scope " << g.scope_name << "/" << g.scope_version << "/" << g.scope_schema
@@ -603,7 +1387,7 @@ void compare(vh::Case &c, const Expected &e, const Captured &g, const Setup &s, 
 }
 
 void finish(vh::Case &c, Setup &s, const std::vector<Expected> &expected,
-            std::vector<std::unique_ptr<sg::Arena>> &parked)
+            std::vector<std::unique_ptr<Store>> &parked)
 {
   VH_CHECK(c, s.provider->ForceFlush(), "LoggerProvider::ForceFlush returned false");
   parked.clear();
@@ -644,21 +1428,27 @@ void maybe_scope_op(vh::Reader &rd, ThreadState &ts, std::string &notes, const s
 
 void one_scope_op(vh::Reader &rd, ThreadState &ts, std::string &notes, const std::string &label)
 {
-  size_t k = rd.weighted({2, 4, 3});
-  if (k == 1)
+  // 0 nothing, 1 activate a DefaultSpan with a valid context, 2 deactivate the innermost frame,
+  // 3.. the other frame kinds of push_frame
+  size_t k = rd.weighted({4, 8, 6, 2, 1, 1, 2, 2});
+  if (k == 2)
   {
-    tr::SpanContext cx = sg::gen_span_context(rd, true);
-    otel::nostd::shared_ptr<tr::Span> sp(new tr::DefaultSpan(cx));
-    ts.scopes.emplace_back(cx, std::unique_ptr<tr::Scope>(new tr::Scope(sp)));
-    notes += " " + label + "activate " + sg::show_ctx(cx) + "\n";
+    if (!ts.scopes.empty())
+    {
+      ts.scopes.pop_back();
+      notes += " " + label + "deactivate\n";
+    }
   }
-  else if (k == 2 && !ts.scopes.empty())
-  {
-    ts.scopes.pop_back();
-    notes += " " + label + "deactivate\n";
-  }
+  else if (k != 0)
+    push_frame(rd, ts, k, notes, label);
 }
 }  // namespace
+
+void emit_tags(vh::Case &c, const std::set<std::string> &tags)
+{
+  for (auto &t : tags)
+    c.tag(t);
+}
 
 VH_TARGET(log_program, 8,
           "non-trivial when a non-scalar body/attribute was emitted (its caller storage is released right "
@@ -666,18 +1456,21 @@ VH_TARGET(log_program, 8,
           "distinct program text")
 {
   Setup s = make_setup(c);
-  ThreadState ts;
   std::vector<Expected> expected;
-  std::vector<std::unique_ptr<sg::Arena>> parked;
+  std::vector<std::unique_ptr<Store>> parked;
   EmitStats st;
   std::string notes;
-  unsigned n = 1 + c.rd.below(6);
-  for (unsigned i = 0; i < n && (i < 1 || !c.rd.exhausted()); ++i)
   {
-    maybe_scope_op(c.rd, ts, notes, "");
-    do_emit(c.rd, s, ts, static_cast<int64_t>(i), expected, notes, st, parked, "");
+    ThreadState ts;
+    unsigned n = 1 + c.rd.below(6);
+    for (unsigned i = 0; i < n && (i < 1 || !c.rd.exhausted()); ++i)
+    {
+      maybe_scope_op(c.rd, ts, notes, "");
+      do_emit(c.rd, s, ts, static_cast<int64_t>(i), expected, notes, st, parked, "");
+    }
+    ts.clear();
+    st.tags.insert(ts.tags.begin(), ts.tags.end());
   }
-  ts.scopes.clear();
   c.note(notes);
   if (st.nonscalar)
     c.tag("non-scalar");
@@ -685,6 +1478,7 @@ VH_TARGET(log_program, 8,
     c.tag("active-span");
   if (st.deferred_nonscalar)
     c.tag("non-scalar+deferred-export");
+  emit_tags(c, st.tags);
   c.nontrivial = st.nonscalar || st.active_span || s.sinks.size() >= 2;
   finish(c, s, expected, parked);
 }
@@ -704,7 +1498,7 @@ VH_TARGET(log_threads, 10,
   std::vector<std::vector<Expected>> expected(nt);
   std::vector<std::string> notes(nt);
   std::vector<EmitStats> st(nt);
-  std::vector<std::vector<std::unique_ptr<sg::Arena>>> parked(nt);
+  std::vector<std::vector<std::unique_ptr<Store>>> parked(nt);
   std::vector<std::thread> ths;
   for (unsigned t = 0; t < nt; ++t)
     ths.emplace_back([&, t]() {
@@ -717,13 +1511,15 @@ VH_TARGET(log_threads, 10,
         do_emit(rd, s, ts, static_cast<int64_t>(t * 1000 + i), expected[t], notes[t], st[t], parked[t],
                 "T" + std::to_string(t) + " ");
       }
-      ts.scopes.clear();
+      ts.clear();
+      st[t].tags.insert(ts.tags.begin(), ts.tags.end());
     });
   for (auto &th : ths)
     th.join();
   std::vector<Expected> all;
-  std::vector<std::unique_ptr<sg::Arena>> all_parked;
+  std::vector<std::unique_ptr<Store>> all_parked;
   unsigned with_span = 0;
+  std::set<std::string> tags;
   for (unsigned t = 0; t < nt; ++t)
   {
     c.note(notes[t]);
@@ -733,8 +1529,10 @@ VH_TARGET(log_threads, 10,
       all_parked.push_back(std::move(p));
     if (st[t].active_span)
       ++with_span;
+    tags.insert(st[t].tags.begin(), st[t].tags.end());
   }
   c.tag("threads-" + std::to_string(nt));
+  emit_tags(c, tags);
   c.nontrivial = with_span >= 2;
   finish(c, s, all, all_parked);
 }
@@ -770,4 +1568,37 @@ VH_TARGET(f5_witness, 1, "fixed witness case of known finding F5 (not part of th
   sg::apply_last_wins(m, attrs);
   std::string diff;
   VH_CHECK(c, sg::maps_equal(m, sink->records[0].attrs, &diff), "attributes differ: " << diff);
+}
+
+// Fixed witness of the defect candidate C13-eventid-noname (independent of the generators and of
+// kHoldBack_eventid_noname): one simple processor; the documented overload
+// Logger::Log(Severity, int64_t event_id, format, attributes) builds EventId{event_id}, whose name_ is a
+// null pointer, and LogRecordSetterTrait<EventId>::Set turns it into nostd::string_view{nullptr}
+// (strlen(nullptr)).  Expected: the record arrives with event id 7 and the empty event name.
+VH_TARGET(eventid_noname_witness, 1,
+          "fixed witness case of finding C13-eventid-noname (fixed in /repo; not part of the search)")
+{
+  c.note("simple processor; Log(kInfo, int64 event_id=7, 'fmt', {k=1}) and EmitLogRecord(EventId(8), kWarn, 'b')\n");
+  auto sink = std::make_shared<Sink>();
+  std::unique_ptr<sdkl::LogRecordProcessor> proc(new sdkl::SimpleLogRecordProcessor(
+      std::unique_ptr<sdkl::LogRecordExporter>(new CaptureExporter(sink))));
+  auto provider = std::make_shared<sdkl::LoggerProvider>(std::move(proc));
+  auto logger   = provider->GetLogger("w", "lib");
+  sg::KVList attrs = {{"k", sg::MValue(static_cast<int64_t>(1))}};
+  {
+    sg::Arena a;
+    sg::ArenaKV akv(attrs, a);
+    const otel::common::KeyValueIterable &kvi = akv;
+    int64_t event_id                          = 7;
+    otel::nostd::string_view fmt              = a.view("fmt");
+    logger->Log(lg::Severity::kInfo, event_id, fmt, kvi);
+    logger->EmitLogRecord(lg::EventId(8), lg::Severity::kWarn, fmt);
+    a.release();
+  }
+  std::lock_guard<std::mutex> g(sink->mu);
+  VH_CHECK(c, sink->records.size() == 2, "expected two exported records, got " << sink->records.size());
+  VH_CHECK(c, sink->records[0].event_id == 7 && sink->records[0].event_name.empty(),
+           "event " << sink->records[0].event_id << "/'" << vh::show(sink->records[0].event_name) << "' expected 7/''");
+  VH_CHECK(c, sink->records[1].event_id == 8 && sink->records[1].event_name.empty(),
+           "event " << sink->records[1].event_id << "/'" << vh::show(sink->records[1].event_name) << "' expected 8/''");
 }
